@@ -174,6 +174,16 @@ def static_writers(prog, static):
     return out
 
 
+def _feeds(fn, local):
+    """locals that are moved/copied (whole) into `local` by plain assignments."""
+    out = set()
+    for b in fn["blocks"]:
+        for s in b["stmts"]:
+            if s["k"] == "assign" and s["dst"]["l"] == local and not s["dst"].get("p") and s["rv"]["k"] == "use" and s["rv"]["a"]["k"] in ("copy", "move") and not s["rv"]["a"]["p"].get("p"):
+                out.add(s["rv"]["a"]["p"]["l"])
+    return out
+
+
 def run_one(ck, prog):
     cg = prog.callgraph()
     # ---- C07.1 exact-name match -------------------------------------------------------------------------------------
@@ -213,6 +223,27 @@ def run_one(ck, prog):
             ck.ob("C07.1", f"{nm}|equals-sign-at-matched-length", eq_sign, fn=nm, site=ctx.site(ob), detail="the value may only be returned when the entry has '=' right after the matched prefix")
             ck.ob("C07.1", f"{nm}|matched-length-equals-key-length", len_eq, fn=nm, site=ctx.site(ob),
                   detail="the value is returned without checking that the WHOLE key was matched: the prefix matcher returns the common-prefix length, so the key `HOMEX` finds the entry `HOME=/root` (common prefix 4, entry[4] == '=')")
+
+        # the dual: "missing" is decided only at the end of the environment (an is_null test on the cursor / the entry it reads),
+        # never from a single entry that happened to share a prefix; and the scan visits the next entry (cursor + 1) otherwise
+        miss = [b["id"] for b in fn["blocks"] if b["id"] in cfg.live_blocks() and not b.get("cleanup") and
+                any(s["k"] == "assign" and s["rv"]["k"] == "agg" and s["rv"].get("variant") == "Missing" for s in b["stmts"])]
+        ck.ob("C07.1", f"{nm}|anchor|missing-return", len(miss) >= 1, fn=nm, detail="no `VarError::Missing` result found")
+        for k, mb in enumerate(miss):
+            facts = panics.dominating_facts(ctx, mb)
+            at_end = any(f[0] == "truth" and f[2] is True and isinstance(f[1], tuple) and f[1][0] == "call" and (f[1][1] or "").endswith("::is_null") for f in facts)
+            after_match = cfg.dominates(m[0], mb)
+            ck.ob("C07.1", f"{nm}|missing-only-at-end-of-environment|#{k}", at_end and not after_match, fn=nm, site=ctx.site(mb),
+                  detail="`Missing` is returned from inside the scan (after looking at one entry) instead of only when the NULL entry is reached: a longer name sharing the key as prefix (HOMEDRIVE before HOME) hides the real variable")
+        cur = [l for l, n in ctx.prov.names.items() if n == "env_ptr"]
+        steps = []
+        for b in fn["blocks"]:
+            t = b["term"]
+            if b["id"] in cfg.live_blocks() and t["k"] == "call" and cur and t["dst"]["l"] in _feeds(fn, cur[0]) | {cur[0]} and (t.get("callee") or "").endswith("const_ptr::<impl *const T>::add"):
+                a = ctx.args(b["id"])
+                steps.append((b["id"], fold(a[1]) if len(a) > 1 else None, a[0]))
+        ok_step = len(steps) == 1 and steps[0][1] == 1 and canon(steps[0][2]).endswith("env_ptr") and cfg.in_cycle(steps[0][0]) and not cfg.dominates(m[0], steps[0][0]) is None
+        ck.ob("C07.1", f"{nm}|scan-steps-one-entry", ok_step, fn=nm, detail=f"the environment cursor must advance by exactly one entry per round; steps found {[(b, c) for b, c, _ in steps]}")
 
     # ---- C07.3 write-once statics ----------------------------------------------------------------------------------------
     pm = prog.fns.get(PROXY)
